@@ -143,13 +143,13 @@ def g_case(rng):
             y = rng.random()
             if y < 0.6:
                 sources.append({"bare": rng.choice(leaves)})
-            elif y < 0.94:
+            elif y < 0.97:
                 kids = [k for k in dict.fromkeys(rng.choice(leaves) for _ in range(rng.randint(1, 3)))
                         if k not in taken]
                 if rng.random() < 0.3:
                     kids.append(rng.choice(sens))          # a sensor inside a source collection is ignored
                 kids = [k for k in kids if k not in taken]
-                if not any(k in leaves for k in kids) and rng.random() < 0.85:
+                if not any(k in leaves for k in kids) and rng.random() < 0.93:
                     sources.append({"bare": rng.choice(leaves)})
                     continue
                 taken.update(kids)
@@ -158,7 +158,7 @@ def g_case(rng):
                 sources.append({"bad": rng.choice(["sensor", "int", "emptycoll"])})
     # observers
     z = rng.random()
-    if z < 0.04:
+    if z < 0.03:
         observers = {"kind": "bad", "what": rng.choice(["none", "empty", "int"])}
     elif z < 0.2:
         observers = {"kind": "arr", "shape": rng.choice([[3], [2, 3], [2, 2, 3], [1, 3]])}
@@ -172,12 +172,12 @@ def g_case(rng):
                 kids = [k for k in dict.fromkeys(rng.choice(sens) for _ in range(rng.randint(1, 2))) if k not in taken]
                 if rng.random() < 0.3:
                     kids += [k for k in [rng.choice(leaves)] if k not in taken]
-                if not any(k in sens for k in kids) and rng.random() < 0.85:
+                if not any(k in sens for k in kids) and rng.random() < 0.93:
                     ent.append({"sens": rng.choice(sens)})
                     continue
                 taken.update(kids)
                 ent.append({"coll": kids})
-            elif y < 0.96:
+            elif y < 0.98:
                 ent.append({"vec": shape0 if (shape0 is not None and len(shape0) <= 2 and rng.random() < 0.7)
                             else rng.choice([[3], [2, 3]])})
             else:
@@ -1054,7 +1054,7 @@ def run(ctx):
     built = ctx.build_props() and ok
     if built:
         ctx.refuted += ["C08_level2_state_restored_prefix_refuted", "C08_prefix_field_func_faults_refuted",
-                        "C08_prefix_any_crash_point_refuted"]
+                        "C08_prefix_any_crash_point_refuted", "C08_trimming_finally_renorm_refuted"]
     if ctx.tier == "thorough" and built:
         ctx.coqchk("MV.Props.C08")
     flow = None
@@ -1082,10 +1082,30 @@ def run(ctx):
             run_exact(ctx, inj, flow, can_model, ctx.tier + "_inj")
     run_guarded(ctx, corr, "C08 correspondence")
 
+    run_guarded(ctx, lambda: run_corpus(ctx), "C08 corpus")
     big = bool(ctx.broken)
     run_guarded(ctx, lambda: search_scenes(ctx, ctx.n(500, 6000) * (3 if big else 1)), "C08 scene search")
     run_guarded(ctx, lambda: check_dict_iface(ctx, ctx.n(120, 1500)), "C08 functional interface arrays")
     run_guarded(ctx, lambda: check_object_arrays(ctx), "C08 object arrays")
+
+
+def run_corpus(ctx):
+    """minimised past failures (commits 7b53805, e5d1a5c): re-checked first on every run"""
+    import glob
+    import os
+    from harness.common import VERIF
+    for path in sorted(glob.glob(os.path.join(VERIF, "corpus", "C08-*.json"))):
+        rp = json.load(open(path))["replay"]
+        if rp["kind"] == "scene":
+            res, _ = check_scene(rp["scene"])
+        else:
+            obs, _, _ = impl_run(rp["case"], {"lines": [], "prog": [], "body": "getBH_level2"})
+            v = exact_violation(rp["case"], obs)
+            res = [v] if v else []
+        ctx.case(("corpus", os.path.basename(path)), True)
+        ctx.bump("corpus")
+        for sig, text in res:
+            ctx.impl_fail(sig, text, rp)
 
 
 def replay(ctx, obj):
